@@ -8,12 +8,12 @@ ROOT = os.path.dirname(HERE)
 # property -> (level category, technique, level text, level note, design ref)
 CHECKS = {
     "C20": ("exploration",
-            "Go race detector over concurrent workloads (reports with a gmsm frame are violations), equality of each concurrent result with its sequential counterpart, porcupine linearizability checks of recorded histories, stream-consistency monitors for concurrent Read/Write/Close and for duplex traffic (multi-record writes) with an injected record fault, concurrent verification on pools holding same-name CAs, ticket decryption during key-list rotation",
+            "Go race detector over concurrent workloads (reports with a gmsm frame are violations), equality of each concurrent result with its sequential counterpart, porcupine linearizability checks of recorded histories, stream-consistency monitors for concurrent Read/Write/Close and for duplex traffic (multi-record writes) with an injected record fault, concurrent verification on pools holding same-name CAs, ticket decryption during key-list rotation, SM4 mode and GCM helpers under different keys in a tight concurrent loop, Close after a failed write",
             "The worker is built with -race and runs: package-level operations on separate data from 2..32 goroutines (sign/verify/encrypt/decrypt/key exchange, SM3, SM4 helpers, GCM, parse + chain verification on shared pools, PKCS#7) compared with sequential results; one shared cipher.Block under mixed Encrypt/Decrypt vs the reference; first use of the curve from 16 goroutines in fresh child processes; one Config serving up to 48 simultaneous handshakes with concurrent ticket-key rotation, shared session cache and pools; porcupine on the LRU session cache and the ticket-key register (many short histories, unique values, 10 s checker timeout = inconclusive); one connection with concurrent tagged writers, a reader and Close at a seeded instant (per-writer FIFO, no duplication, no loss before close, all calls return, Write after Close errors).",
             "Trusted: Go race detector, porcupine v1.3.0, sequential results and /verif/ref as oracles. A clean run speaks only for the interleavings produced (evidence lists goroutine counts and histories).",
             "DESIGN.md §5 C20"),
     "C08": ("fault_enumeration",
-            "attacker catalogue executed against live endpoints: misconfigured genuine stacks, a scripted reference peer without the identity, a record-level man in the middle rewriting the cleartext flight, resumption-bypass scenarios, Config.Clone copies, same-name and grafted-key forgeries on long-lived pools, look-alike server names, redirected reconnects after cache eviction; completion/panic monitors",
+            "attacker catalogue executed against live endpoints: misconfigured genuine stacks, a scripted reference peer without the identity, a record-level man in the middle rewriting the cleartext flight, resumption-bypass scenarios, Config.Clone copies, same-name and grafted-key forgeries on long-lived pools, look-alike server names, redirected reconnects after cache eviction, identity cases through GetConfigForClient with a lax listener Config, a scripted server omitting or replacing the ServerKeyExchange; completion/panic monitors",
             "(1) gmtls servers/clients holding genuine certificates with wrong keys, untrusted/expired/not-yet-valid/wrong-name/swapped/RSA/P-256 certificates, client certificates with wrong key/untrusted/expired under each ClientAuth policy; (2) a well-formed reference peer whose ServerKeyExchange is over other randoms / another encryption certificate / by another key / replayed, whose CertificateVerify is by another key / over another transcript / omitted / replayed, wrong Finished, pre-master under another key; (3) a man in the middle flipping every byte (sampled for long messages in quick) of every cleartext handshake message and applying structured rewrites (suite downgrade, randoms, session id, certificate swap/drop/append, drop/duplicate message). The attacked side must return an error; after a real byte change never both sides complete; no panic on the attacked side. Both GM suites, client-auth policies, plus TLS 1.2.",
             "Trusted: ground-truth PKI, /verif/ref TLCP peer. A misconfigured attacker-side endpoint crashing on its own configuration is not judged.",
             "DESIGN.md §5 C08"),
@@ -23,17 +23,17 @@ CHECKS = {
             "Trusted: resumption model from the property text, /verif/ref TLCP decoder. 'may' connections are not judged on DidResume.",
             "DESIGN.md §5 C16"),
     "C06": ("exploration",
-            "configuration-matrix workload with a policy-model oracle, agreement / prefix-stream monitors, a passive reference GM/T 0024 decoder over the tapped wire and key log, crypto/tls as independent peer (with client certificates), seeded write plans, a second connection per ticket-enabled configuration, Config.Clone copies, every row of the suite table, application-protocol lists and certificate selection by server name",
+            "configuration-matrix workload with a policy-model oracle, agreement / prefix-stream monitors, a passive reference GM/T 0024 decoder over the tapped wire and key log, crypto/tls as independent peer (with client certificates), seeded write plans, a second connection per ticket-enabled configuration, Config.Clone copies, every row of the suite table, application-protocol lists and certificate selection by server name, default suite lists, a live reference peer whose GCM nonces run independently of its sequence numbers",
             "Runs gmtls client/server pairs over an in-memory tapped transport for the matrix server mode x client kind x suites x preference x ClientAuth x client certificate x certificate source x tickets (GM part full-factorial in thorough), plus TLS 1.0-1.2 suites against crypto/tls in both roles; a policy model from the property text says must-complete / must-fail / unspecified; both ends must agree on ConnectionState and ExportKeyingMaterial; position-tagged payloads (to 200 KiB, seeded fragment plans, both directions concurrently) must arrive as exact prefixes; every GMSSL session is re-derived by the reference decoder (record MAC/tag under index-as-sequence-number, Finished values, ServerKeyExchange signature, pre-master recovery, plaintext equality).",
             "Trusted: policy model, /verif/ref TLCP decoder (self-consistent reading of GM/T 0024 over ref SM2/SM3/SM4, not certified), Go crypto/tls. ECDHE-SM2 completion is unspecified.",
             "DESIGN.md §5 C06"),
     "C07": ("fault_enumeration",
-            "fault catalogue applied by an interposing transport to live GMSSL sessions with prefix-stream / sticky-error / exact-byte-count monitors, exhaustive white-box bit flips through the halfConn hook, reference-built padding cases, passive nonce monitors, long sessions and long white-box runs across sequence-number carries with far replays, the same fault catalogue on the standard-TLS rows of the suite table (control-session-calibrated positions)",
+            "fault catalogue applied by an interposing transport to live GMSSL sessions with prefix-stream / sticky-error / exact-byte-count monitors, exhaustive white-box bit flips through the halfConn hook, reference-built padding cases, passive nonce monitors, long sessions and long white-box runs across sequence-number carries with far replays, the same fault catalogue on the standard-TLS rows of the suite table (control-session-calibrated positions), short-read Config.Rand sources with a partial-IV-freshness monitor",
             "One fault (bit flip per region, truncation/extension, swap, duplicate, drop, cross-direction and cross-connection injection, header rewrites, early end of stream) is applied to one application record of a real session; the receiver must deliver exactly the bytes of the records before the affected one (count taken from the reference decoder), return a fatal sticky error and never a wrong byte. White box: every bit of every record for payload sizes {0,1,15,16,17,31,32,100} at sequence numbers 0 and 3, sampled to 16384 bytes, replay/out-of-order, all CBC padding lengths 0..255 built by the reference and each corrupted MAC/padding/length byte, GCM nonce = sequence counter; passive IV-uniqueness over all sessions.",
             "Trusted: /verif/ref TLCP record layer. Header length bytes are judged only in the black-box layer.",
             "DESIGN.md §5 C07"),
     "C15": ("fault_enumeration",
-            "scripted reference peer with one deviation per run and a differential oracle against a strict reference endpoint (GMSSL); live standard-TLS handshakes whose cleartext flight is rewritten message by message (TLS 1.0-1.2); configuration-variant targets; compound (two-step) deviations; signature-scheme code-point sweep; HelloRequest after completion; Dial/DialWithDialer over loopback sockets against raw misbehaving peers; ServerHello-legality monitor on the wire; panic capture; logical deadlock breaker and closed-input watchdog",
+            "scripted reference peer with one deviation per run and a differential oracle against a strict reference endpoint (GMSSL); live standard-TLS handshakes whose cleartext flight is rewritten message by message (TLS 1.0-1.2); configuration-variant targets; compound (two-step) deviations; signature-scheme code-point sweep; HelloRequest after completion; Dial/DialWithDialer over loopback sockets against raw misbehaving peers; a scriptable reference TLS 1.2 client (RSA, AES-128-CBC-SHA, NPN; validated against crypto/tls) deviating in the encrypted second flight; ServerHello-legality monitor on the wire; panic capture; logical deadlock breaker, closed-input watchdog and spin (bounded-progress) detection",
             "A reference GM/T 0024 client/server plays an otherwise honest handshake against the gmtls client and the GMSSL-only, auto-switch and TLS-only servers with one deviation at one step: omit/repeat, every handshake type out of turn, CCS/alerts/application data/unknown record types/SSLv2 header at every step, oversize and empty records, every truncation, handshake-length and per-byte field perturbations, certificate-list variants (RSA, single, empty, garbage, P-256), end of stream after every step, ClientHello versions 0x0000..0x0400 x suite and compression lists. Whenever the strict reference endpoint refuses the same script, gmtls must return an error, never complete, never panic, and return once its input has ended.",
             "Trusted: strict reference endpoint as the definition of 'deviates'. Scripts it completes are not judged; no-op deviations are detected per run and not judged.",
             "DESIGN.md §5 C15"),
@@ -43,12 +43,12 @@ CHECKS = {
             "Trusted: Go runtime (recover, getrusage, MemStats). Bytes encoding a password-stretching iteration count are not mutated (exempt by the property).",
             "DESIGN.md §5 C18"),
     "C10": ("exploration",
-            "reference path validator over generator ground truth (no cryptography, none of gmsm's parser) compared with Verify on generated PKI topologies; every returned chain checked link by link; pools shared across queries, re-keyed CA and look-alike scenarios, certificates re-issued in another extension order by the reference signer, forced cross-certified / usage-restricted / subdomain-constrained topologies",
+            "reference path validator over generator ground truth (no cryptography, none of gmsm's parser) compared with Verify on generated PKI topologies; every returned chain checked link by link; pools shared across queries, re-keyed CA and look-alike scenarios, certificates re-issued in another extension order by the reference signer, forced cross-certified / usage-restricted / subdomain-constrained topologies and X.509 v1/v2 intermediates",
             "Generates PKI topologies (roots, re-issued/cross-signed/looping intermediates, same-name impostor keys, leaves) that are valid except for 0-4 injected faults (expired, not yet valid, non-CA, no basic constraints, path length, key usage, name constraints, corrupted signature, impostor, EKU, critical extension, missing from pool) and queries (time incl. boundary instants, host classes, usages, pool insertion order) perturbed in one dimension; Verify must return a chain exactly when the reference finds one inside the region the statement determines (32 interpretation variants must agree), and every returned chain is checked against ground truth.",
             "Trusted: generator ground truth; gmsm CreateCertificate/ParseCertificate only as the means to materialise certificates (C09). Unspecified region listed in evidence assumptions.",
             "DESIGN.md §5 C10"),
     "C17": ("exploration",
-            "round-trip and wrong-holder monitors for enveloped data, ground-truth tamper monitors for signed data (library-built RSA and harness-built SM2 incl. reference-signed) and PKCS#12 (SM2, RSA, ECDSA keys, CA chains, third-party fixture bundles, file helpers), DER length-boundary windows, per-byte substitution sweeps, held-results re-check",
+            "round-trip and wrong-holder monitors for enveloped data, ground-truth tamper monitors for signed data (library-built RSA and harness-built SM2 incl. reference-signed) and PKCS#12 (SM2, RSA, ECDSA keys, CA chains, third-party fixture bundles from OpenSSL and the JDK incl. both forms of the empty password, file helpers), DER length-boundary windows, per-byte substitution sweeps, held-results re-check",
             "Envelopes contents for 1..3 SM2 recipients (both content ciphers, both orderings) and RSA recipients and opens them with every recipient, a non-recipient, the wrong key, wrong ordering and a key of the other type; verifies signed data untouched and after content/attribute/signature/signer changes and after every single-byte substitution (must not verify unless content, signed attributes, signature integers and certified key are unchanged); PKCS#12 Encode/DecodeAll/ToPEM with password classes, wrong passwords and byte substitutions (error or same key and certificate).",
             "Trusted: ground-truth contents/keys, /verif/ref SM2 signing, encoding/asn1 mirror structures. CBC-enveloped content has no integrity protection: mutated CBC envelopes are only required not to panic.",
             "DESIGN.md §5 C17"),
@@ -68,7 +68,7 @@ CHECKS = {
             "Trusted: /verif/ref affine arithmetic ([n]G=O, GM/T 0003.5 examples). Scalars/points sampled by class.",
             "DESIGN.md §5 C03"),
     "C09": ("exploration",
-            "ground-truth round-trip monitor (template vs parsed fields), issuer/other-key verification monitor, reference SM2 verification of signed bytes, byte-exact issuer / name-chaining monitor, differently-signed issuer certificates, per-byte tamper sweep",
+            "ground-truth round-trip monitor (template vs parsed fields), issuer/other-key verification monitor, reference SM2 verification of signed bytes, byte-exact issuer / name-chaining monitor, differently-signed issuer certificates, issuer keys with shortening coordinates used in sequence, per-byte tamper sweep",
             "Creates certificates, CSRs and CRLs (both constructors) over generated templates x signer family {SM2, RSA, P-256, P-384} x algorithm {unset, each of the family}; parses back and compares field by field with the template; verifies under issuer, under a fresh key, with the reference SM2 verifier over the raw TBS; substitutes bytes at every position (quick: every position for a tenth of the objects, sampled for the rest) and requires parse or verification failure unless signed bytes and signature integers are unchanged.",
             "Trusted: templates as ground truth, /verif/ref SM2 verify, encoding/asn1, crypto/x509 for RSA/ECDSA issuers.",
             "DESIGN.md §5 C09"),
